@@ -21,6 +21,11 @@ U = Unit('c09', includes=INC)
 add_lookat(U)
 ULH = Unit('c09lh', includes=INC, defines=['GLM_FORCE_LEFT_HANDED'])
 add_lookat(ULH)
+UZO = Unit('c09zo', includes=INC, defines=['GLM_FORCE_DEPTH_ZERO_TO_ONE'])
+add_lookat(UZO)
+ULHZO = Unit('c09lhzo', includes=INC, defines=['GLM_FORCE_LEFT_HANDED', 'GLM_FORCE_DEPTH_ZERO_TO_ONE'])
+add_lookat(ULHZO)
+CFG = {'RH_NO': (U, 'RH'), 'LH_NO': (ULH, 'LH'), 'RH_ZO': (UZO, 'RH'), 'LH_ZO': (ULHZO, 'LH')}      # configuration -> (unit, handedness lookAt must select)
 URD = Unit('c09rd', includes=INC)
 for t, c in FT.items():
     M4 = lambda p, c=c: 'ldm<4,4,%s>(%s)' % (c, p)
@@ -75,7 +80,7 @@ for t, c in FT.items():
     Ur = U if t == 'f32' else URD
     Ur.add('decrec_' + t, [(c, 16)], [('int', 1), (c, 17), (c, 16)], DEC + ' stm(o3, glm::recompose(sc, q, tr, sk, pe));')
     Ur.add('recompose_' + t, [(c, 17)], [(c, 16)], 'stm(o, glm::recompose(%s, ldq<%s>(a + 3), %s, %s, %s));' % (V3('a'), c, V3('a + 7'), V3('a + 10'), V4('a + 13')))
-def units(tier): return [U, ULH]
+def units(tier): return [U, ULH, UZO, ULHZO]
 
 # ------------------------------------------------------------------------------------------------ specification side (pure mathematics; nothing shared with glm)
 ZERO, ONE = z3.RealVal(0), z3.RealVal(1)
@@ -347,31 +352,31 @@ def look_goals(i, o, T, hand):
     g += [('det(R)==1', REq(det3(R), ONE))]
     g += [('lastrow[%d]' % c, REq(Mx[3][c], ONE if c == 3 else ZERO)) for c in range(4)]
     return g
-def job_lookat(t, cfg):
-    Un = U if cfg == 'RH' else ULH
+def job_lookat(t, cfgname):
+    Un, cfg = CFG[cfgname]
     def run(S):
-        vs = (('RH', 'RH'), ('LH', 'LH'), ('', cfg)) if cfg == 'RH' else (('', cfg),)
+        vs = (('RH', 'RH'), ('LH', 'LH'), ('', cfg)) if cfgname == 'RH_NO' else (('', cfg),)
         for v, hand in vs:
-            chk(S, Un, 'lookAt%s_%s' % (v, t), lambda i, o, T, hand=hand: look_goals(i, o, T, hand), pre_look, bounds='eye != center, up not parallel to center-eye; config ' + cfg,
+            chk(S, Un, 'lookAt%s_%s' % (v, t), lambda i, o, T, hand=hand: look_goals(i, o, T, hand), pre_look, bounds='eye != center, up not parallel to center-eye; config ' + cfgname,
                 mutant=lambda i, o, T, hand=hand: [('other-handedness', dict(look_goals(i, o, T, 'LH' if hand == 'RH' else 'RH'))['M*(center,1).z==%s|center-eye|' % ('+' if hand == 'RH' else '-')])])
     return run
-def job_lookat_dispatch(t, cfg):
+def job_lookat_dispatch(t, cfgname):
     """[bit] lookAt is exactly the variant selected by the configured handedness (identical IEEE terms), and differs from the other one"""
-    Un = U if cfg == 'RH' else ULH; other = 'LH' if cfg == 'RH' else 'RH'
+    Un, cfg = CFG[cfgname]; other = 'LH' if cfg == 'RH' else 'RH'
     def run(S):
-        S.diff_fn(Un, Un, 'lookAt_' + t, fname_b='lookAt%s_%s' % (cfg, t), mode='fp', name='c09.dispatch.%s.lookAt_%s==lookAt%s' % (cfg, t, cfg), timeout=S.cap(10, 30), bounds='bit-exact, all bit patterns; config ' + cfg,
+        S.diff_fn(Un, Un, 'lookAt_' + t, fname_b='lookAt%s_%s' % (cfg, t), mode='fp', name='c09.dispatch.%s.lookAt_%s==lookAt%s' % (cfgname, t, cfg), timeout=S.cap(10, 30), bounds='bit-exact, all bit patterns; config ' + cfgname,
                   label_a='lookAt', label_b='lookAt' + cfg)
-        if any(x.startswith('c09.dispatch.%s.lookAt_%s==' % (cfg, t)) for x in S.inconclusive):
+        if any(x.startswith('c09.dispatch.%s.lookAt_%s==' % (cfgname, t)) for x in S.inconclusive):
             # the terms differ and the solver found neither proof nor model over symbolic IEEE sqrt/div: help the model search with a pinned view (a verdict still needs the model reproduced natively)
             w_ = 32 if t == 'f32' else 64
             pin = lambda i: [x == z3.BitVecVal(float_to_bits(v, w_), w_) for row, vals in zip(i, ((1.0, 2.0, 3.0), (0.5, -1.0, 7.0), (0.0, 1.0, 0.25))) for x, v in zip(row, vals)]
-            S.diff_fn(Un, Un, 'lookAt_' + t, pin, fname_b='lookAt%s_%s' % (cfg, t), mode='fp', name='c09.dispatch.%s.lookAt_%s==lookAt%s.pinned' % (cfg, t, cfg), timeout=30, mandatory=False,
+            S.diff_fn(Un, Un, 'lookAt_' + t, pin, fname_b='lookAt%s_%s' % (cfg, t), mode='fp', name='c09.dispatch.%s.lookAt_%s==lookAt%s.pinned' % (cfgname, t, cfg), timeout=30, mandatory=False,
                       bounds='model search with pinned inputs', label_a='lookAt', label_b='lookAt' + cfg)
         if S.quick: return
         r1 = sym_call(Un, 'lookAt_' + t, mode='fp'); r2 = sym_call(Un, 'lookAt%s_%s' % (other, t), ins=r1.ins, mode='fp')
         w = 32 if t == 'f32' else 64       # (model search over symbolic IEEE sqrt/div does not finish: the twin is decided on the pinned view eye = 0, center = -z, up = +y)
         fin = [x == z3.BitVecVal(float_to_bits(v, w), w) for row, vals in zip(r1.ins, ((0.0, 0.0, 0.0), (0.0, 0.0, -1.0), (0.0, 1.0, 0.0))) for x, v in zip(row, vals)]
-        S.prove('c09.dispatch.%s.lookAt_%s!=lookAt%s.twin' % (cfg, t, other), z3.And(*[same_float(a, b) for a, b in zip(r1.outs[0], r2.outs[0])]), fin + r1.axioms + r2.axioms, timeout=S.cap(30, 60), kind='mutant-twin',
+        S.prove('c09.dispatch.%s.lookAt_%s!=lookAt%s.twin' % (cfgname, t, other), z3.And(*[same_float(a, b) for a, b in zip(r1.outs[0], r2.outs[0])]), fin + r1.axioms + r2.axioms, timeout=S.cap(30, 60), kind='mutant-twin',
                 expect='sat', mandatory=False, functions=['w_lookAt_' + t])
     return run
 
@@ -466,7 +471,7 @@ def job_axisangle(t):
         R = rodrigues(c, s_, n); Min = flat([R[r] + [tr[r]] for r in range(3)] + [[ZERO, ZERO, ZERO, ONE]])
         rot = [c * c + s_ * s_ == 1, norm2(n) == 1]
         generic = z3.Or(*[absr(2 * s_ * n[k]) >= eps for k in range(3)])
-        for sg, cond, sign in (('s>0', s_ > 0, 1), ('s<0', s_ < 0, -1)):
+        for sg, cond, sign in (() if S.quick else (('s>0', s_ > 0, 1), ('s<0', s_ < 0, -1))):
             def spec(i, o, T, sign=sign):
                 ax = [rv(x) for x in o[0]]; an = rv(o[1][0]); Mx = M4of(i[0])
                 v = [Mx[2][1] - Mx[1][2], Mx[0][2] - Mx[2][0], Mx[1][0] - Mx[0][1]]          # antisymmetric part of R = 2 s n
@@ -482,8 +487,8 @@ def job_axisangle(t):
             ax = [rv(x) for x in o[0]]
             return [('angle==pi', REq(rv(o[1][0]), T.pi))] + [('axis_%d*axis_%d==n_%d*n_%d' % (a, b, a, b), REq(ax[a] * ax[b], n[a] * n[b])) for a in range(3) for b in range(a, 3)]
         n2 = [x * x for x in n]
-        for nm, cond in (('x', z3.And(n2[0] > n2[1], n2[0] > n2[2])), ('y', z3.And(z3.Not(z3.And(n2[0] > n2[1], n2[0] > n2[2])), n2[1] > n2[2])), ('z', z3.And(z3.Not(z3.And(n2[0] > n2[1], n2[0] > n2[2])), z3.Not(n2[1] > n2[2])))):
-            chk(S, U, 'axisAngle0_' + t, spech, lambda i, cond=cond: [norm2(n) == 1, cond], ins=[Hin], name='c09.axisAngle_%s.halfturn.%s' % (t, nm), solver='z3', timeout=S.cap(60, 180),
+        for nm, cond in () if S.quick else (('x', z3.And(n2[0] > n2[1], n2[0] > n2[2])), ('y', z3.And(z3.Not(z3.And(n2[0] > n2[1], n2[0] > n2[2])), n2[1] > n2[2])), ('z', z3.And(z3.Not(z3.And(n2[0] > n2[1], n2[0] > n2[2])), z3.Not(n2[1] > n2[2])))):
+            chk(S, U, 'axisAngle0_' + t, spech, lambda i, cond=cond: [norm2(n) == 1, cond], ins=[Hin], name='c09.axisAngle_%s.halfturn.%s' % (t, nm), solver='z3', timeout=300, mandatory=False,
                 bounds='R = 2 n n^T - I, |n| = 1: angle pi, axis = +-n; largest diagonal entry: ' + nm)
         Iin = flat([[ONE if r == k else (tr[r] if (k == 3 and r < 3) else ZERO) for k in range(4)] for r in range(4)])
         chk(S, U, 'axisAngle_' + t, lambda i, o, T: [('angle==0', REq(rv(o[1][0]), ZERO))] + vec_goals('axis==(1,0,0)', o[0], [ONE, ZERO, ZERO]) + mat_goals('axisAngleMatrix==I', M4of(o[2]), ident(4)), None, ins=[Iin],
@@ -493,10 +498,9 @@ def job_interpolate(t):
     """interpolate(m1, m2, d) == axisAngleMatrix(axis, angle*d) * rot(m1) with (axis, angle) = axisAngle(m2 * rot(m1)^T) and the translation m1.t + d (m2.t - m1.t) (composition of the parts verified above);
     d = 0 gives m1 for every affine m1 and every m2; d = 1 gives m2 for m1 a translation and m2 = translation * rotation (optional: heavy)"""
     def run(S):
-        chk(S, U, 'interp_parts_' + t, lambda i, o, T: mat_goals('interpolate==R(axis,angle*d)*rot(m1)+lerp(t)', M4of(o[0]), M4of(o[1])), None, side=False, witness=False, solver='z3', bounds='all m1, m2, delta (outputs compared as terms)')
         m1 = [z3.Real('p%d' % k) if k % 4 != 3 else (ONE if k == 15 else ZERO) for k in range(16)]; m2 = [z3.Real('q%d' % k) for k in range(16)]
-        chk(S, U, 'interpolate_' + t, lambda i, o, T: mat_goals('interpolate(m1,m2,0)==m1', M4of(o[0]), M4of(i[0])), None, ins=[m1, m2, [ZERO]], name='c09.interpolate_%s.delta0' % t, solver='z3', timeout=S.cap(60, 180),
-            bounds='delta = 0: all affine m1 (last row 0 0 0 1), all m2')
+        chk(S, U, 'interpolate_' + t, lambda i, o, T: mat_goals('interpolate(m1,m2,0)==m1', M4of(o[0]), M4of(i[0])), None, ins=[m1, m2, [ZERO]], name='c09.interpolate_%s.delta0' % t, solver='z3', timeout=S.cap(60, 180), side=False, witness=False,
+            bounds='delta = 0: all affine m1 (last row 0 0 0 1), all m2 (the code\'s own domain obligations are not discharged here)')
         if S.quick: return
         c, s_ = z3.Reals('rc rs'); n = list(z3.Reals('rn0 rn1 rn2')); t1 = list(z3.Reals('s0 s1 s2')); t2 = list(z3.Reals('t0 t1 t2'))
         R = rodrigues(c, s_, n); eps = eps_of(t) * 100
@@ -545,7 +549,7 @@ class Chain:
     def track(s, key, terms): s.g[key] = [z3.simplify(t) for t in terms]
     def fork(s, tag, extra):
         """the same terms under a stronger precondition (case split)"""
-        c = Chain(s.S, s.name + '.' + tag, s.pre + list(extra), s.ax, functions=s.fn); c.nz = dict(s.nz); c.g = {k: list(v) for k, v in s.g.items()}; return c
+        c = Chain(s.S, s.name + '.' + tag, s.pre + list(extra), s.ax, functions=s.fn); c.nz = dict(s.nz); c.mandatory = getattr(s, 'mandatory', True); c.g = {k: list(v) for k, v in s.g.items()}; return c
     def terms(s): return [t for k in s.g for t in s.g[k]] + s.ax
     def apply(s, pairs):
         if not pairs: return
@@ -554,7 +558,7 @@ class Chain:
         s.ax = [a for a in s.ax if not z3.is_true(a)]
     def lemma(s, label, goal, hyps, solver='nra', timeout=None, mandatory=True):
         s.n += 1
-        r, _ = s.S.prove('%s.chain%03d.%s' % (s.name, s.n, label[:90]), goal, list(hyps), kind='lemma', solver=solver, timeout=timeout or s.S.cap(30, 90), functions=s.fn, mandatory=mandatory,
+        r, _ = s.S.prove('%s.chain%03d.%s' % (s.name, s.n, label[:90]), goal, list(hyps), kind='lemma', solver=solver, timeout=timeout or s.S.cap(30, 90), functions=s.fn, mandatory=mandatory and getattr(s, 'mandatory', True),
                          replay=lambda m: ('not-reproduced', {'note': 'lemma of a simplification chain: a model only means the rewrite is not available'}))
         return r == 'unsat'
     def equate(s, label, var, arg, want_sq, want, extra=()):
@@ -720,7 +724,7 @@ def recompose_double_available(S):
 def pnorm(x):
     """expanded polynomial form (so that cancellations such as p.t m - m p.t are syntactic)"""
     p_ = realtrig.poly_of(z3.simplify(rv(x))); return p_.term() if p_.t else ZERO
-def job_decompose(t, base, axis, signs, skew, persp=0):
+def job_decompose(t, base, axis, signs, skew, persp=0, pform='full', mandatory=True):
     """M = P(p) * T(t) * [B * R_axis(angle)] * K(skew) * diag(s): symbolic translation, angle (c, s with c^2+s^2 = 1), scale (sign pattern fixed per job), skew, perspective row; B a fixed
     rational rotation.  persp = +-1: M[3][3] = m with that sign and the parameters are written t = tau*m, s = sigma*m, p.w = m (1 - p.tau) (a bijection for m != 0) so that the code's
     normalisation by M[3][3] cancels against a variable.  Obligations: decompose reports success; the components compose (P * T * rotmat(q) * K * diag(scale)) to M / M[3][3];
@@ -735,7 +739,7 @@ def job_decompose(t, base, axis, signs, skew, persp=0):
         pre += [sg * x > 0 for sg, x in zip(signs, sc)] + [signs[0] * signs[1] * signs[2] * sc[0] * sc[1] * sc[2] >= eps]
         nz = list(sc); m = ONE
         if persp:
-            m = z3.Real('m'); pp = list(z3.Reals('px py pz')); nz.append(m)
+            m = z3.Real('m'); pp = list(z3.Reals('px py pz')) if pform == 'full' else [ZERO, ZERO, z3.Real('pz')]; nz.append(m)
             M = trs_matrix(R, [x * m for x in sc], [x * m for x in tr], kk, pp + [m * (1 - dot(pp, tr))])
             Kk = [[ONE, kk[2], kk[1]], [ZERO, ONE, kk[0]], [ZERO, ZERO, ONE]] if skew else ident(3)
             Bn = mmul(mmul(R, Kk), diag(sc))                                      # upper-left block of M / m
@@ -746,11 +750,11 @@ def job_decompose(t, base, axis, signs, skew, persp=0):
         M = [[pnorm(x) for x in row] for row in M]; Mf = flat(M)
         ex = mkex(Un, 'real', 16)
         res = sym_call(Un, fn, ins=[Mf], mode='real', ex=ex)
-        tag = '%s%s.%s%s%s' % (base, axis, ''.join('+' if x > 0 else '-' for x in signs), '.skew' if skew else '', '' if not persp else ('.persp+' if persp > 0 else '.persp-'))
+        tag = '%s%s.%s%s%s' % (base, axis, ''.join('+' if x > 0 else '-' for x in signs), '.skew' if skew else '', '' if not persp else (('.persp+' if persp > 0 else '.persp-') + ('' if pform == 'full' else '(0,0,c,w)')))
         name = 'c09.%s.%s' % (fn, tag)
         bounds = 'M = %sT*(%s*R%s(angle))*%sdiag(s); signs of s: %s; |det| >= epsilon%s' % ('P*' if persp else '', base, axis, 'K(skew)*' if skew else '', signs,
                                                                                             '; sign of M[3][3]: %d, |M[3][3]| >= epsilon, some |M[k][3]/M[3][3]| >= epsilon' % persp if persp else '')
-        C = Chain(S, name, pre, ex.axioms, nonzero=nz, functions=['w_' + fn])
+        C = Chain(S, name, pre, ex.axioms, nonzero=nz, functions=['w_' + fn]); C.mandatory = mandatory
         C.track('ok', [z3.If(res.outs[0][0] == 1, ONE, ZERO)]); C.track('comp', [rv(x) for x in res.outs[1]])
         if len(res.outs) > 2: C.track('rec', [rv(x) for x in res.outs[2]])
         C.track('sqrt-args', [a for a, y in ex.sqrt_log])
@@ -759,7 +763,7 @@ def job_decompose(t, base, axis, signs, skew, persp=0):
             C.equate('scale%d' % k, ex.sqrt_log[k][1], C.g['sqrt-args'][k], sc[k] * sc[k], signs[k] * sc[k])
             C.cancel(); C.reduce(s_, 1 - c * c)
         C.bvfree(); C.conds(); C.reduce(s_, 1 - c * c)
-        S.prove(name + '.ok', C.g['ok'][0] == 1, pre + select_axioms(C.ax, [C.g['ok'][0]]), timeout=S.cap(40, 120), solver='nra', kind='spec', functions=['w_' + fn], bounds=bounds)
+        S.prove(name + '.ok', C.g['ok'][0] == 1, pre + select_axioms(C.ax, [C.g['ok'][0]]), timeout=S.cap(40, 120), solver='nra', kind='spec', functions=['w_' + fn], bounds=bounds, mandatory=mandatory)
         # the orthonormal rows the quaternion is extracted from: column k of B*R up to the sign of s_k, all negated when the determinant is negative; case split over the extraction branches
         flip = -1 if signs[0] * signs[1] * signs[2] < 0 else 1
         Rp = [[signs[k] * flip * R[r][k] for k in range(3)] for r in range(3)]; d = [Rp[k][k] for k in range(3)]; trc = d[0] + d[1] + d[2]
@@ -769,27 +773,38 @@ def job_decompose(t, base, axis, signs, skew, persp=0):
         for cn, cond in cases:
             r0, _, _, _ = S.query(pre + cond, 5, 'nra')
             if r0 == 'unsat':
-                S.prove('%s.%s.unreachable' % (name, cn), z3.Not(z3.And(*cond)), pre, timeout=20, solver='nra', kind='lemma', functions=['w_' + fn], bounds=bounds + '; branch not reachable in this family'); continue
+                S.prove('%s.%s.unreachable' % (name, cn), z3.Not(z3.And(*cond)), pre, timeout=20, solver='nra', kind='lemma', functions=['w_' + fn], bounds=bounds + '; branch not reachable in this family', mandatory=mandatory); continue
             D = C.fork(cn, cond); D.conds(); D.reduce(s_, 1 - c * c)
             comp = D.g['comp']; hy = lambda g: D.pre + select_axioms(D.ax, [g])
             W = trs_matrix(qrotmat(comp[3:7]), comp[0:3], comp[7:10], comp[10:13], comp[13:17])
             goals = [('compose(decompose(M))[r%dc%d]' % (r, k), W[r][k] * m == M[r][k]) for r in range(4) for k in range(4)]
             if 'rec' in D.g: goals += [('recompose(decompose(M))[%d]' % k, D.g['rec'][k] * m == Mf[k]) for k in range(16)]
             for lab, g in goals:
-                S.prove('%s.%s.%s' % (name, cn, lab), g, hy(g), timeout=S.cap(40, 120), solver='nra', kind='spec', functions=['w_' + fn], bounds=bounds + '; extraction branch ' + cn)
+                S.prove('%s.%s.%s' % (name, cn, lab), g, hy(g), timeout=S.cap(40, 120), solver='nra', kind='spec', functions=['w_' + fn], bounds=bounds + '; extraction branch ' + cn, mandatory=mandatory)
     return run
 
+SIGNS = [(a, b, c) for a in (1, -1) for b in (1, -1) for c in (1, -1)]
 def jobs(tier):
-    J = []
+    q = tier == 'quick'; J = []
     for t in FT:
         J += [('elementary_' + t, job_elementary(t)), ('rna_' + t, job_rna(t)), ('transform2_' + t, job_transform2(t)), ('scalebias_' + t, job_scalebias(t)), ('2d_' + t, job_2d(t)), ('rotvec_' + t, job_rotvec(t)),
               ('orientation_' + t, job_orientation(t)), ('axisanglematrix_' + t, job_axisanglematrix(t)), ('axisangle_' + t, job_axisangle(t)), ('interpolate_' + t, job_interpolate(t))]
-        for cfg in ('RH', 'LH'):
+        for cfg in CFG:
             J += [('lookat_%s_%s' % (cfg, t), job_lookat(t, cfg)), ('lookat_dispatch_%s_%s' % (cfg, t), job_lookat_dispatch(t, cfg))]
     J.append(('lemmas', job_lemmas))
-    for nm, a in (('Iz+++', ('I', 'z', (1, 1, 1), False)), ('Iz-++k', ('I', 'z', (-1, 1, 1), True)), ('Px+-+k', ('P', 'x', (1, -1, 1), True)), ('Y90y---k', ('Y90', 'y', (-1, -1, -1), True)),
-                  ('Iz+++p', ('I', 'z', (1, 1, 1), False, 1)), ('Px+-+kp', ('P', 'x', (1, -1, 1), True, -1))):
-        J.append(('decompose_f32_' + nm, job_decompose('f32', *a)))
-    J.append(('decompose_f64_Px+-+k', job_decompose('f64', 'P', 'x', (1, -1, 1), True)))
-    J.append(('decompose_f64_Iz+++', job_decompose('f64', 'I', 'z', (1, 1, 1), False)))
+    nm = lambda b, a, sg, k, p, pf='full': '%s%s%s%s%s' % (b, a, ''.join('+' if x > 0 else '-' for x in sg), 'k' if k else '', '' if not p else ('p' if p > 0 else 'n') + ('' if pf == 'full' else 'z'))
+    fam = [('I', 'z', (1, 1, 1), False, 0), ('I', 'z', (-1, 1, 1), True, 0), ('P', 'x', (1, -1, 1), True, 0), ('Y90', 'y', (-1, -1, -1), True, 0), ('I', 'z', (1, 1, 1), False, 1, 'z'), ('I', 'x', (1, 1, -1), False, -1, 'z')]
+    for a in fam: J.append(('decompose_f32_' + nm(*a), job_decompose('f32', *a)))
+    if not q:
+        done = set(fam)
+        for b in CUBE:
+            for ax in 'xyz':
+                for sg in SIGNS:
+                    a = (b, ax, sg, True, 0)
+                    if a not in done: J.append(('decompose_f32_' + nm(*a), job_decompose('f32', *a)))
+        for a in (('I', 'z', (1, 1, 1), False, 1), ('I', 'y', (1, -1, 1), True, 1, 'z'), ('P', 'x', (1, -1, 1), True, -1)):
+            J.append(('decompose_f32_' + nm(*a) + '_opt', job_decompose('f32', *a, mandatory=False)))
+        for a in fam[:4]: J.append(('decompose_f64_' + nm(*a) + '_opt', job_decompose('f64', *a, mandatory=False)))
+    else:
+        J.append(('recompose_f64', lambda S: recompose_double_available(S)))
     return J
